@@ -379,8 +379,7 @@ void Runner::op_drain_run(Thread *t, int idx, const Op &op, OpRes &res) {
   if (is_run) {
     if (op.spec < 0 || (size_t) op.spec >= plan.starts.size()) return;
     sp = plan.starts[(size_t) op.spec];
-    static const char *const progs[] = { "/bin/prog", "./prog", "sub/prog", "prog", "/bin/missing", "/bin/noexec", "/bin", "nosuchprog", "" };
-    argv.push_back(progs[sp.prog >= 0 && sp.prog < 9 ? sp.prog : 0]);
+    argv.push_back(prog_string(sp.prog));
     for (auto &a : sp.args) argv.push_back(a.c_str());
     argv.push_back(nullptr);
     so.in.type = sp.in.type; so.out.type = sp.out.type; so.err.type = sp.err.type;
